@@ -991,6 +991,38 @@ def gen_long_gene_locus(src, with_annotation=True, chrom="chr1", straddle=False,
             "hidden_genes": hidden_x if with_annotation else genes + hidden_x}
 
 
+def gen_one_bin_pileup(src, with_annotation=True, chrom="chr1"):
+    """A cluster of >= 1024 short reads that all start and end inside one 256-bp coverage bin (amplicon-like), plus
+    an ordinary gene elsewhere on the chromosome."""
+    b = src.int(3, 40)
+    reads = []
+    n = src.int(1024, 1200)
+    strand = src.choice(["+", "-"])
+    lo = b * BIN + src.int(0, 20)
+    for i in range(n):
+        a = lo + src.int(0, 40)
+        e = min((b + 1) * BIN - 1, a + src.int(60, 190))
+        reads.append(R.make_read("p%d" % i, chrom, [[a + 1, e + 1 - 1]], flag=16 if strand == "-" else 0,
+                                 mapq=src.choice([60, 60, 60, 20])))
+    genes = [{"id": "P0", "chr": chrom, "strand": strand, "canon": "canon",
+              "transcripts": [{"id": "PT0", "exons": [[lo - 30, (b + 1) * BIN + 40]]}]}]
+    g0 = (b + 3) * BIN + src.int(300, 3000)
+    c2 = [[g0 + 1, g0 + 300], [g0 + 801, g0 + 1100], [g0 + 1501, g0 + 1800]]
+    st2 = src.choice(["+", "-"])
+    genes.append({"id": "S0", "chr": chrom, "strand": st2, "canon": "canon",
+                  "transcripts": [{"id": "ST0", "exons": c2}]})
+    overrides = build.splice_overrides(chrom, c2, st2)
+    special = []
+    for i in range(src.int(2, 6)):
+        reads.append(R.make_read("g%d" % i, chrom, [list(x) for x in c2], flag=16 if st2 == "-" else 0, mapq=60))
+    special.append("p0")
+    length = c2[-1][1] + src.int(800, 3000)
+    return {"chroms": [[chrom, length, src.int(1, 10 ** 6)]], "genes": genes if with_annotation else [],
+            "overrides": overrides, "reads": reads, "nfiles": 1,
+            "gtf": {"gene_records": True, "transcript_records": True}, "special": special,
+            "hidden_genes": [] if with_annotation else genes}
+
+
 def add_mirror_strand_clone(src, sc, g, reads_per_chain=(3, 5), name_prefix="m"):
     """Clone gene g (and the unannotated chains derived from it) onto a new chromosome at the SAME coordinates but on
     the opposite strand, with splice sites canonical for that strand, and add exact reads of every chain.  Two
